@@ -741,11 +741,26 @@ var ipSlice = rapid.Custom(func(t *rapid.T) net.IP {
 func Mask() *rapid.Generator[net.IPMask] { return mask }
 
 var mask = rapid.Custom(func(t *rapid.T) net.IPMask {
-	switch rapid.IntRange(0, 9).Draw(t, "form") {
+	switch rapid.IntRange(0, 11).Draw(t, "form") {
 	case 0:
 		return nil
 	case 1:
 		return net.IPMask{}
+	case 10, 11:
+		// Word-wise canonical: every 1-, 2-, 4- or 8-byte word of the mask is
+		// "ones, then zeros" on its own (what a word-at-a-time check sees),
+		// the whole usually is not.
+		n := rapid.SampledFrom([]int{4, 16, 16}).Draw(t, "len")
+		w := rapid.SampledFrom([]int{1, 2, 4, 8}).Draw(t, "word")
+		w = min(w, n)
+		b := make([]byte, n)
+		for at := 0; at < n; at += w {
+			ones := rapid.IntRange(0, 8*w).Draw(t, "wordones")
+			for k := 0; k < ones; k++ {
+				b[at+k/8] |= 0x80 >> (k % 8)
+			}
+		}
+		return net.IPMask(b)
 	case 2, 3, 4:
 		return net.CIDRMask(rapid.IntRange(0, 32).Draw(t, "ones"), 32)
 	case 5, 6:
